@@ -82,6 +82,44 @@ with refs_of_props (ps : props) {struct ps} : list ref :=
 with refs_of_property (p : property) {struct p} : list ref :=
   match p with Property _ _ _ f => refs_of_field f end.
 
+(* every reference of a declaration: objects / oneofs with their nested declarations, the
+   requests and responses of a service, the messages of a topic (implicit leading fields
+   included) *)
+Fixpoint refs_of_nested (n : nested) {struct n} : list ref :=
+  match n with
+  | NObject _ ps subs | NOneof _ ps subs => refs_of_props ps ++ refs_of_nesteds subs
+  | NEnum _ => []
+  end
+with refs_of_nesteds (ns : nesteds) {struct ns} : list ref :=
+  match ns with
+  | NNil => []
+  | NCons n r => refs_of_nested n ++ refs_of_nesteds r
+  end.
+
+Definition refs_of_method (m : method) : list ref :=
+  refs_of_props (m_request m) ++ match m_response m with Some ps => refs_of_props ps | None => [] end.
+Definition refs_of_tmsgs (virt : props) (l : list tmsg) : list ref :=
+  flat_map (fun t => refs_of_props (papp virt (tm_fields t))) l.
+Definition refs_of_topic (t : topic) : list ref :=
+  match t with
+  | TPublish _ msgs => refs_of_tmsgs PNil msgs
+  | TReqRes _ req reply => refs_of_tmsgs virt_request req ++ refs_of_tmsgs virt_request reply
+  | TUpsert _ _ msg => refs_of_tmsgs virt_upsert [msg]
+  | TEvent _ _ msg => refs_of_tmsgs PNil [msg]
+  end.
+
+(* the references of the declarations that go to the main / .service / .topic file *)
+Definition main_refs (e : element) : list ref :=
+  match e with
+  | EObject nm ps subs => refs_of_nested (NObject nm ps subs)
+  | EOneof nm ps subs => refs_of_nested (NOneof nm ps subs)
+  | _ => []
+  end.
+Definition service_refs (e : element) : list ref :=
+  match e with EService s => flat_map refs_of_method (sv_methods s) | _ => [] end.
+Definition topic_refs (e : element) : list ref :=
+  match e with ETopic t => refs_of_topic t | _ => [] end.
+
 Section Contract.
 Variables snake camel screaming : str -> str.
 
@@ -317,5 +355,90 @@ Definition main_file_ok (f : jfile) (df : dfile) : Prop :=
 Definition package_contract (bd : bundle) (pkg : str) (D : list dfile) : Prop :=
   forall f, In (BJ f) bd -> j5s_pkg f = pkg ->
     exists df, In df D /\ main_file_ok f df.
+
+(* ------------------------------------------------------------------ the sub-package files, linked *)
+(* The services of a source file go to <dir>/service/<base>.p.j5s.proto in the package
+   <pkg>.service, the topics to <dir>/topic/... in <pkg>.topic.  After the link step the request
+   / response / message types of a method are named with the sub-package. *)
+Definition elem_services (e : element) : list service := match e with EService s => [s] | _ => [] end.
+Definition elem_topics (e : element) : list topic := match e with ETopic t => [t] | _ => [] end.
+Definition file_services (f : jfile) : list service := flat_map elem_services (jf_elements f).
+Definition file_topics (f : jfile) : list topic := flat_map elem_topics (jf_elements f).
+
+Inductive zip3 {A B C} (R : A -> B -> C -> Prop) : list A -> list B -> list C -> Prop :=
+| z3_nil : zip3 R [] [] []
+| z3_cons : forall a c d la lc ld, R a c d -> zip3 R la lc ld -> zip3 R (a :: la) (c :: lc) (d :: ld).
+
+Definition in_pkg (spkg n : str) : str := dot ++ spkg ++ dot ++ n.
+
+Definition method_linked_ok (spkg : str) (base : option str) (m : method) (dm : dmethod) : Prop :=
+  me_name dm = m_name m /\
+  me_in dm = in_pkg spkg (m_name m ++ b "Request") /\
+  me_out dm = (match m_response m with
+               | Some _ => in_pkg spkg (m_name m ++ b "Response")
+               | None => b ".google.api.HttpBody"
+               end) /\
+  exists h, me_http dm = Some h /\ h_verb h = m_verb m /\ h_path h = declared_path base m /\
+            h_body h = (match m_verb m with VGet => [] | _ => [42] end).
+
+(* one service: <Name>Service with one rpc per method, and the request / response messages of
+   its methods, in order *)
+Definition service_linked_ok (spkg : str) (s : service) (ms : list dmsg) (ds : dservice) : Prop :=
+  ds_name ds = sv_name s ++ b "Service" /\ ds_topic ds = None /\
+  Forall2 (method_linked_ok spkg (sv_base s)) (sv_methods s) (ds_methods ds) /\
+  exists mss, ms = concat mss /\ Forall2 method_msgs_ok (sv_methods s) mss.
+
+Definition service_file_ok (f : jfile) (df : dfile) : Prop :=
+  let spkg := j5s_pkg f ++ dot ++ b "service" in
+  fl_path df = sub_proto_path f (b "service") /\ fl_pkg df = spkg /\ fl_enums df = [] /\
+  exists mss, fl_msgs df = concat mss /\ zip3 (service_linked_ok spkg) (file_services f) mss (fl_svcs df).
+
+Definition topic_method_linked_ok (spkg tname : str) (t : tmsg) (dm : dmethod) : Prop :=
+  me_name dm = tmsg_name tname t /\ me_in dm = in_pkg spkg (tmsg_name tname t ++ b "Message") /\
+  me_out dm = b ".google.protobuf.Empty" /\ me_http dm = None.
+
+Definition topic_service_linked_ok (spkg tname topic_name : str) (rl : role) (virt : props) (l : list tmsg)
+           (ms : list dmsg) (ds : dservice) : Prop :=
+  ds_name ds = camel tname ++ b "Topic" /\ ds_topic ds = Some (topic_name, rl) /\
+  Forall2 (topic_method_linked_ok spkg tname) l (ds_methods ds) /\
+  Forall2 (fun t m => virtual_ok (tmsg_name tname t ++ b "Message") virt (tm_fields t) m) l ms.
+
+(* one topic: one <Topic>Topic service (two for a request / reply topic) and its messages *)
+Definition topic_linked_ok (spkg : str) (t : topic) (ms : list dmsg) (ss : list dservice) : Prop :=
+  match t with
+  | TPublish name msgs =>
+      exists ds, ss = [ds] /\ topic_service_linked_ok spkg name (snake name) RPublish PNil msgs ms ds
+  | TReqRes name req reply =>
+      exists ds1 ds2 ms1 ms2, ss = [ds1; ds2] /\ ms = ms1 ++ ms2 /\
+        topic_service_linked_ok spkg (name ++ b "Request") (snake name) RRequest virt_request req ms1 ds1 /\
+        topic_service_linked_ok spkg (name ++ b "Reply") (snake name) RReply virt_request reply ms2 ds2
+  | TUpsert name entity msg =>
+      exists ds, ss = [ds] /\
+        topic_service_linked_ok spkg name (snake name) (RUpsert entity) virt_upsert
+          [match tm_name msg with None => mkTmsg (Some name) (tm_fields msg) | Some _ => msg end] ms ds
+  | TEvent name entity msg =>
+      exists ds, ss = [ds] /\ topic_service_linked_ok spkg name (snake name) (REvent entity) PNil [msg] ms ds
+  end.
+
+Definition topic_file_ok (f : jfile) (df : dfile) : Prop :=
+  let spkg := j5s_pkg f ++ dot ++ b "topic" in
+  fl_path df = sub_proto_path f (b "topic") /\ fl_pkg df = spkg /\ fl_enums df = [] /\
+  exists mss sss, fl_msgs df = concat mss /\ fl_svcs df = concat sss /\
+                  zip3 (topic_linked_ok spkg) (file_topics f) mss sss.
+
+(* every output file is one of these, for a source file of the package *)
+Definition output_of (f : jfile) (df : dfile) : Prop :=
+  fl_path df = main_proto_path f \/
+  (fl_path df = sub_proto_path f (b "service") /\ file_services f <> []) \/
+  (fl_path df = sub_proto_path f (b "topic") /\ file_topics f <> []).
+
+(* the whole output of a package: per source file the main file, the .service file exactly when
+   it declares services, the .topic file exactly when it declares topics - and nothing else *)
+Definition package_contract_full (bd : bundle) (pkg : str) (D : list dfile) : Prop :=
+  (forall f, In (BJ f) bd -> j5s_pkg f = pkg ->
+     (exists df, In df D /\ main_file_ok f df) /\
+     (file_services f <> [] -> exists df, In df D /\ service_file_ok f df) /\
+     (file_topics f <> [] -> exists df, In df D /\ topic_file_ok f df)) /\
+  (forall df, In df D -> exists f, In (BJ f) bd /\ j5s_pkg f = pkg /\ output_of f df).
 
 End Contract.
